@@ -39,9 +39,8 @@ class C35(vlib.Spec):
 
     def emb_bin(self):
         if not hasattr(self, "_emb"):
-            ok, bindir, log = vlib.cargo_build(self.emb_crate, self.emb_group)
-            self._emb = os.path.join(bindir, self.emb_binary) if ok else None
-            if not ok:
+            self._emb, log = codec.cached_build(self.emb_crate, self.emb_group, self.emb_binary)
+            if self._emb is None:
                 self.ctx.log("embedded harness build failed:\n" + log[-2000:])
         return self._emb
 
@@ -50,24 +49,31 @@ class C35(vlib.Spec):
         for f in sorted(glob.glob(os.path.join(vlib.ROOT, "corpus", "C35", "*.json"))):
             cases.append(json.load(open(f)))
         cases += codec.gen_cases(rng, tier, n)
-        for _ in range(min(60, n // 10)):
-            cases.append(codec.gen_emb(rng))
-        return cases
+        emb = [codec.gen_emb(rng) for _ in range(min(60, n // 20))]
+        self.emb_batch = self.emb_batch + emb
+        return cases + emb
 
     def n_cases(self, tier):
-        return 900 if tier == "quick" else 10000
+        return 320 if tier == "quick" else 10000
 
     def to_coq(self, case, res):
         if case["k"] == "emb":
             b = self.emb_bin()
             if b is None:
                 return 1  # the generated-closure harness no longer builds against /repo
-            r = vlib.run_harness(self.ctx, b, [case], name="emb")[0]
-            self.emb_results[vlib.case_hash(case)] = r
-            return codec.emb_term(case, r)
+            h = vlib.case_hash(case)
+            if h not in self.emb_results and self.emb_batch:
+                # all generated closure cases in one harness process
+                batch, self.emb_batch = self.emb_batch, []
+                for c, r in zip(batch, vlib.run_harness(self.ctx, b, batch, name="emb")):
+                    self.emb_results[vlib.case_hash(c)] = r
+            if h not in self.emb_results:
+                self.emb_results[h] = vlib.run_harness(self.ctx, b, [case], name="emb")[0]
+            return codec.emb_term(case, self.emb_results[h])
         return codec.term(case, res)
 
     emb_results = {}
+    emb_batch = []
 
     def shrink(self, case):
         return codec.shrink(case)
